@@ -66,24 +66,30 @@ CLAIMS = {
         note=COMMON_NOTE + "The mtime half of the skip rule is runtime behaviour and not modelled (size-equal files are equal when only "
              "appends happened)."),
     'C05': dict(
-        text="PARTIAL PROOF (what is missing: the Open-time programs of Recover/Migrate themselves and the rebasing delete, a proved "
-             "counterexample). Proved in Lean, record level (Klev/Crash.lean, Proofs/CrashProofs.lean): Publish (with rollover) and Delete (every "
-             "way a rewritten segment is swapped in, in reader and head segments) are programs of file-system steps; for every state with the "
-             "invariant, every operation, every prefix of its program (= crash point) and any open options with Recover, Open succeeds, the log "
-             "satisfies the invariant (so all views agree and every later call behaves, by C01-C12) and its content is the acknowledged messages "
-             "plus a prefix of the batch in flight / the delete applied completely or not at all, NextOffset never backwards (crash_recovers); "
-             "the programs end exactly in the model's result (prog_final). Without 'non-rebasing' the theorem is false: "
-             "rebase_crash_counterexample (= known finding D6, replayed on the real code). Byte level: a cut record never parses (both formats); "
-             "for every log content, batch, byte count that reached the file and index state, Recover keeps exactly the whole records, the "
-             "result passes Check, can be appended to, and recovering again changes nothing (torn_batch_recovers/check). Regenerated order facts "
-             "(record before item before in-memory append; fsync before rename; old head fsynced before the new segment) are obligations. "
-             "Tie of the programs to the code: the FS tap snapshots the directory after every file-system mutation of every operation; the "
-             "driver requires every image's listing to be one of the model's crash states of that operation, and judges the real "
-             "Open(Recover) of every image (plus torn appends at every byte in thorough, crashes inside recovery, retry of an interrupted Open) "
-             "against the L0 relation CrashOK.",
+        text="PARTIAL PROOF (what is missing: the rebasing delete, a proved counterexample = known finding D6; tearing below the "
+             "granularity of one write). Proved in Lean, record level (Klev/Crash.lean, Proofs/CrashProofs.lean): Publish (with rollover) and "
+             "Delete (every way a rewritten segment is swapped in, in reader and head segments) are programs of file-system steps; for every "
+             "state with the invariant, every operation, every prefix of its program (= crash point) and any open options with Recover, Open "
+             "succeeds, the log satisfies the invariant (so all views agree and every later call behaves, by C01-C12) and its content is the "
+             "acknowledged messages plus a prefix of the batch in flight / the delete applied completely or not at all, NextOffset never "
+             "backwards (crash_recovers); the programs end exactly in the model's result (prog_final). Open itself is a program too "
+             "(Klev/CrashOpen.lean, Proofs/CrashOpenProofs.lean: Recover's index rewrite; per segment the index removed, the migrated log renamed "
+             "in, the index written; the head's writer files): for every directory clean up to the head's index, every Open with any options "
+             "and every prefix of its program, reopening with Recover succeeds with the invariant and exactly the same content, and the "
+             "directory is again one the theorem applies to, so a crash inside a recovery inside a recovery loses nothing either "
+             "(open_crash_reopens, open_crash_disk, open_crash_reopens_empty); the program ends in the model's Open (open_prog_final). Without "
+             "'non-rebasing' crash_recovers is false: rebase_crash_counterexample (= known finding D6, replayed on the real code). Byte level: a "
+             "cut record never parses (both formats); for every log content, batch, byte count that reached the file and index state, Recover "
+             "keeps exactly the whole records, the result passes Check, can be appended to, and recovering again changes nothing "
+             "(torn_batch_recovers/check). Regenerated order facts (record before item before in-memory append; fsync before rename; old head "
+             "fsynced before the new segment; the order of remove/rename inside Override/Rename/Remove) are obligations. Tie of the programs to "
+             "the code: the FS tap snapshots the directory after every file-system mutation of every operation; the driver requires every "
+             "image's listing to be one of the model's crash states of that operation (Publish, Delete and Open alike), and judges the real "
+             "Open(Recover) of every image (plus torn appends at every byte in thorough, crashes inside recovery, retry of an interrupted Open, "
+             "Recover with eager migration) against the L0 relation CrashOK.",
         note=COMMON_NOTE + "Crash images are taken at write/rename/remove boundaries plus torn appends; sector-level reordering inside one write "
              "is not modelled. Open known findings (known_findings.json): D6 (rebasing delete), KF-V1-TORN.",
-        technique="Lean 4 theorems over a hand-written model (FS programs of Publish/Delete at record level with every crash point; byte-level "
+        technique="Lean 4 theorems over a hand-written model (FS programs of Publish/Delete/Open at record level with every crash point; byte-level "
                   "recovery of the head for every cut) + regenerated go/ast facts as proof obligations + crash-image correspondence against the "
                   "real Open(Recover), incl. membership of every observed directory in the model's crash states"),
     'C06': dict(
